@@ -430,13 +430,15 @@ def corpus(nl='\n'):
     ctxs = [
         ('args', '#f(%s)\n'), ('array', '#(%s)\n'), ('dict', '#(k: %s)\n'), ('params', '#let f(%s) = 1\n'), ('destruct', '#let (%s) = x\n'),
         ('import', '#import "m.typ": %s\n'), ('inline-eq', 'a $%s$ b\n'), ('block-eq', '$ %s $\n'), ('inline-args', 'text #f(%s) more\n'),
-        ('math-args', '$ f(%s) $\n'), ('strong-args', '*b #f(%s)*\n'), ('closure', '#let g = (%s) => 1\n'),
+        ('math-args', '$ f(%s) $\n'), ('strong-args', '*b #f(%s)*\n'), ('closure', '#let g = (%s) => 1\n'), ('code-block', '#{%s}\n'), ('code-block', '#f({%s})\n'),
         # the same lists inside another list that may be laid out flat (an enclosing flat group turns optional breaks into blanks)
         ('inline-eq', '#f($%s$)\n'), ('array', '#f((%s))\n'), ('args', '#f(g(%s))\n'), ('inline-eq', '#($%s$, 1)\n'), ('dict', '#f((k: %s))\n'),
         ('params', '#f((%s) => 1)\n'), ('destruct', '#f({ let (%s) = x })\n'), ('math-args', '#f($g(%s)$)\n'),
     ]
     bodies = ['x// c\n', 'x // c\n', '// c\nx', 'x, // c\ny', 'x // c\n, y', 'x, y // c\n', 'x /* c */', '/* c */ x', 'x, /* c */ y', '\n// c\nx\n', 'x\n// c\n',
-              'x,// c\n', 'x /* a */ // c\n', '// c\n', '/* c */']
+              'x,// c\n', 'x /* a */ // c\n', '// c\n', '/* c */',
+              # several comments in one list: a line comment followed by a block comment, by another line comment, ...
+              'x // c\n/* d */', 'x // c\n/* d */ y', '// c\n/* d */', 'x, // c\n/* d */ y', '/* d */ x // c\n/* e */', 'x // c\n// d\n', 'x // c\n/**/', '// c\n/* d */ x']
     for cname, tpl in ctxs:
         for b in bodies:
             yield cname, tpl % b.replace('\n', nl)
@@ -459,7 +461,7 @@ def corpus(nl='\n'):
 
 SITE_CONTEXTS = {
     'convert_params': ('closure', 'params'), 'convert_equation': ('inline-eq', 'block-eq'), 'convert_array': ('array', 'math-args'),
-    'convert_import_items': ('import',), 'convert_destructuring': ('destruct',), 'convert_dict': ('dict',), 'convert_code_block': (),
+    'convert_import_items': ('import',), 'convert_destructuring': ('destruct',), 'convert_dict': ('dict',), 'convert_code_block': ('code-block',),
     'convert_parenthesized_args': ('args', 'inline-args', 'strong-args', 'math-args'), 'convert_parenthesized_impl': (),
 }
 
@@ -496,14 +498,18 @@ def native_sweep(S, prop, all_hits=False, nl='\n'):
 
 
 IDEM_CORPUS = ['#f(a, b,\n\n c)\n', '#f(a,\n\n\n b)\n', '#(a, b,\n\n c)\n', '#let f(a, b,\n\n c) = 1\n', '#(k: 1, j: 2,\n\n l: 3)\n',
-               '#let (a, b,\n\n c) = x\n', '#{a; b\n\n c}\n', '#import "m.typ": a, b,\n\n c\n', '$ f(a, b,\n\n c) $\n']
+               '#let (a, b,\n\n c) = x\n', '#{a; b\n\n c}\n', '#import "m.typ": a, b,\n\n c\n', '$ f(a, b,\n\n c) $\n',
+               # bodies that get braces / parentheses when broken: what is inside must read back as one expression
+               '#let f = x => y = aaaaaaaa + bbbbbbbbb + ccccccccc\n', '#let add(x) = total += x.width + x.height - x.margin\n', '#f(x => return aaaaaaaa - bbbbbbbbb + ccccccccc)\n',
+               '#let h = x => aaaaaaaa + bbbbbbbbb - ccccccccc\n', '#let a = bbbbbbbbb + ccccccccc - ddddddddd\n', '#for x in aaaaaaa + bbbbbbbb - ccccccc { }\n',
+               '#{\n  return aaaaaaa - bbbbbbbb + ccccccc\n}\n', '#show: it => it.a + it.b - it.c\n', '#f(k: aaaaaaa + bbbbbbbb - ccccccc)\n', '#context aaaaaaa + bbbbbbbb - ccccccc\n']
 
 
 def native_idempotence(S):
     for src in IDEM_CORPUS:
         if S.driver.call('erroneous', hexs(src))[1] == '1':
             continue
-        for w in (80, 20):
+        for w in (80, 20, 10, 0):
             a = S.driver.call('format', hexs(src), w, 2, 0)
             if a[0] != 'ok':
                 continue
